@@ -547,6 +547,14 @@ pub fn corpus() -> Vec<Case> {
     let mut c = plain(300.0, 90.0, vec![fr(1.0), fr(2.0), fr(0.5), single(px(20.0))], vec![fr(1.0), fr(1.0)], vec![Item { col: 3, row: 1, w: b(120.0), h: b(70.0) }]);
     c.gap = [(0, b(7.5)), (1, b(0.1))];
     v.push(c);
+    // exact ties in find_size_of_fr (factor * fr size == base size): `minmax(60px,1fr) 1fr minmax(100px,1fr)` at 180px
+    // (first fr size 60 ties with the first track) and `minmax(50px,1fr) 1fr` at 100px
+    let mfr = |lo: f32| single(Tr { min: Sf(0, b(lo)), max: Sf(2, b(1.0)) });
+    v.push(plain(180.0, 40.0, vec![mfr(60.0), fr(1.0), mfr(100.0)], vec![single(px(40.0))], vec![Item { col: 2, row: 1, w: b(5.0), h: b(5.0) }]));
+    v.push(plain(100.0, 40.0, vec![mfr(50.0), fr(1.0)], vec![single(px(40.0))], vec![Item { col: 1, row: 1, w: b(5.0), h: b(5.0) }]));
+    // a 0fr track with a positive base size forces a second iteration of the loop
+    let zfr = single(Tr { min: Sf(0, b(30.0)), max: Sf(2, b(0.0)) });
+    v.push(plain(200.0, 40.0, vec![zfr, fr(1.0), fr(3.0)], vec![single(px(40.0))], vec![Item { col: 3, row: 1, w: b(5.0), h: b(5.0) }]));
     v
 }
 
@@ -1006,8 +1014,13 @@ pub fn describe(spec: &NodeSpec) -> String {
 }
 
 /// `START <idx>` (flushed) before a case is laid out: a hang or abort is attributed to the last START.
+thread_local! {
+    static LAST_PANIC: std::cell::RefCell<String> = std::cell::RefCell::new(String::new());
+    static LAST_IDX: std::cell::Cell<i64> = std::cell::Cell::new(0);
+}
 fn start_line(idx: i64) {
     use std::io::Write;
+    LAST_IDX.with(|i| i.set(idx));
     println!("START {}", idx);
     std::io::stdout().flush().unwrap();
 }
@@ -1031,7 +1044,11 @@ fn report(idx: i64, vs: &[Verdict]) -> (u64, u64) {
 
 pub fn main(args: &[String]) {
     if args[0] == "oracle" {
-        std::panic::set_hook(Box::new(|_| {}));
+        // panics are caught per case; remember where they came from
+        std::panic::set_hook(Box::new(|info| {
+            let loc = info.location().map(|l| format!("{}:{}", l.file(), l.line())).unwrap_or_default();
+            LAST_PANIC.with(|p| *p.borrow_mut() = loc);
+        }));
     }
     match args[0].as_str() {
         "cases" => {
@@ -1076,7 +1093,11 @@ pub fn main(args: &[String]) {
                         fails += f;
                         knowns += k;
                     }
-                    Err(_) => panics += 1,
+                    Err(e) => {
+                        panics += 1;
+                        let msg = e.downcast_ref::<String>().cloned().or_else(|| e.downcast_ref::<&str>().map(|s| s.to_string())).unwrap_or_default();
+                        println!("PANIC {} {} at {}", LAST_IDX.with(|i| i.get()), msg.replace('\n', " "), LAST_PANIC.with(|p| p.borrow().clone()));
+                    }
                 }
             }
             for idx in 0..n {
@@ -1094,7 +1115,11 @@ pub fn main(args: &[String]) {
                         fails += f;
                         knowns += k;
                     }
-                    Err(_) => panics += 1,
+                    Err(e) => {
+                        panics += 1;
+                        let msg = e.downcast_ref::<String>().cloned().or_else(|| e.downcast_ref::<&str>().map(|s| s.to_string())).unwrap_or_default();
+                        println!("PANIC {} {} at {}", LAST_IDX.with(|i| i.get()), msg.replace('\n', " "), LAST_PANIC.with(|p| p.borrow().clone()));
+                    }
                 }
             }
             println!("ORACLE {} count={} fixed={} gutter={} outer={} fill={} fails={} known={} panics={}", n + kcases.len() as u64, checked[0], checked[1], checked[2], checked[3], checked[4], fails, knowns, panics);
@@ -1115,6 +1140,9 @@ pub fn main(args: &[String]) {
             if std::env::var("C09_VERBOSE").is_ok() {
                 println!("{:#?}", spec);
             }
+            if std::env::var("C09_DEEP").is_ok() {
+                println!("{}", describe_deep(&spec, 0));
+            }
             println!("{}\navail={:?}", describe(&spec), a);
             if let Some(r) = run_spec(&spec, a) {
                 println!("{:#?}\nroot={:?}", r.info, r.root);
@@ -1124,6 +1152,23 @@ pub fn main(args: &[String]) {
             }
             let mut ch = [0u64; 5];
             report(idx, &oracle_on(&spec, a, &mut ch));
+        }
+        "probe" => {
+            // further defects found while building C09 (not C09 violations): reproducers
+            // (1) auto-fit rows, no columns, no in-flow child: row_is_occupied() indexes a 0 x 0 occupancy matrix
+            let hidden = NodeSpec::leaf(Style { display: Display::None, ..Default::default() });
+            let g = NodeSpec {
+                style: Style {
+                    display: Display::Grid,
+                    size: Size::from_lengths(100.0, 100.0),
+                    grid_template_rows: vec![TrackSizingFunction::Repeat(GridTrackRepetition::AutoFit, vec![length(10.0)])],
+                    ..Default::default()
+                },
+                ctx: None,
+                children: vec![hidden],
+            };
+            let r = std::panic::catch_unwind(|| run_spec(&g, Size::MAX_CONTENT).map(|r| r.info.rows.sizes.len()));
+            println!("PROBE autofit-empty-axis {:?}", r.map_err(|e| e.downcast_ref::<String>().cloned().unwrap_or_default()));
         }
         "witness" => {
             for (name, c) in [("a", witness_a()), ("b", witness_b()), ("b2", witness_b2()), ("overshoot", witness_overshoot())] {
@@ -1135,4 +1180,20 @@ pub fn main(args: &[String]) {
         }
         _ => std::process::exit(2),
     }
+}
+
+/// Recursive compact description (debugging aid for oracle cases whose panic comes from a nested container).
+pub fn describe_deep(spec: &NodeSpec, depth: usize) -> String {
+    let mut out = String::new();
+    let pad = "  ".repeat(depth);
+    for l in describe(spec).lines() {
+        out += &format!("{}{}\n", pad, l);
+    }
+    for c in &spec.children {
+        if !c.children.is_empty() {
+            out += &format!("{}-- child subtree (display {:?}):\n", pad, c.style.display);
+            out += &describe_deep(c, depth + 1);
+        }
+    }
+    out
 }
